@@ -1,6 +1,7 @@
 package keeper
 
 import (
+	"sort"
 	"strconv"
 
 	"github.com/ExocoreNetwork/exocore/x/avs/types"
@@ -77,7 +78,20 @@ func (wrapper EpochsHooksWrapper) AfterEpochEnd(
 				// Handle the error gracefully, continue to the next
 				// continue
 			}
-			diff := types.Difference(taskInfo.OptInOperators, signedOperatorList)
+			// the non-signers are the operators that were opted in when the task was created and did
+			// not sign. types.Difference is the symmetric difference: it also returns a signer that
+			// opted in after the task was created, which then appeared in both lists.
+			signed := make(map[string]bool, len(signedOperatorList))
+			for _, operator := range signedOperatorList {
+				signed[operator] = true
+			}
+			var diff []string
+			for _, operator := range taskInfo.OptInOperators {
+				if !signed[operator] {
+					diff = append(diff, operator)
+				}
+			}
+			sort.Strings(diff)
 			taskInfo.SignedOperators = signedOperatorList
 			taskInfo.NoSignedOperators = diff
 			taskInfo.OperatorActivePower = &types.OperatorActivePowerList{OperatorPowerList: operatorPowers}
